@@ -75,6 +75,20 @@ def interleave(rng, blocks):
     return out
 
 
+def grouped(blocks):
+    """all blocks of a track written one after the other under ONE TR (tracks in order of first appearance): no track switch
+    between them - None when a block ends with an octave-once mark (a switch settles it, the next note would take it)"""
+    if any(b.rstrip().endswith(("`", '"')) for _, b in blocks):
+        return None
+    per, order = {}, []
+    for t, b in blocks:
+        if t not in per:
+            per[t] = []
+            order.append(t)
+        per[t].append(b)
+    return [(t, " ".join(per[t])) for t in order]
+
+
 class Dec:
     def __init__(self, field):
         self.notes = midinotes.notes_of_decoded(field)
@@ -302,6 +316,11 @@ def run(ctx):
     for _ in range(n):
         blocks = gen_blocks(rng, TRACKS)
         progs.append((blocks, interleave(rng, blocks)))
+        g = grouped(blocks)
+        if g is not None and rng.random() < 0.5:
+            # what stands between two blocks of one track - a track switch and back, or nothing - changes nothing on that track
+            # (a tie left open at the end of a block is still open when the track's next block comes)
+            progs.append((blocks, g))
     check_permute(ctx, progs, "generated")
     check_sync(ctx, [gen_blocks(rng, LOW_TRACKS) for _ in range(n)], "generated")
     check_play(ctx, [gen_play(rng) for _ in range(n)], "generated")
